@@ -207,7 +207,7 @@ Proof. split; vm_compute; reflexivity. Qed.
 (* max_size_hard_limit on the front end: a cache of 3 blocks with the limit one block above; three
    one-block blobs fill it, a fourth is admitted and pushes the oldest into the deletion backlog (the
    remover is held back: no FDrain); now currentSize + backlog = limit and every write path refuses
-   with the class it derives from 507 (SpliceBlob: Unknown, FetchBlob: NOT_FOUND — as the code is),
+   with the retryable class (SpliceBlob and FetchBlob included: two repaired defects),
    changing nothing; reads go on; after the remover ran the same upload is admitted *)
 Definition hl_fill : list fop :=
   [FInit 12288 16384;
@@ -239,7 +239,7 @@ Definition hl_expected : list fobs :=
   ++ [OSt (SErr EInsufficient); OSt (SErr EInsufficient); OSt (SErr EInsufficient);
       OSts SOk [SErr EInsufficient; SErr EInsufficient];
       OSt (SErr EInsufficient); OSt (SErr EInsufficient); OSt (SErr EInsufficient); OSt (SErr EInsufficient);
-      OSt (SErr EInternal); OFetched (SErr ENotFound) None; OStats 12288 0 3 4096]
+      OSt (SErr EInsufficient); OFetched (SErr EInsufficient) None; OStats 12288 0 3 4096]
   ++ [ORd (mkRd SOk (Some 4096) 4 4096); ORds SOk [mkRd SOk (Some 2048) 2 2048]; ORd (mkRd SOk None 3 2047); OHead SOk 4096;
       OMiss [(hA, 4096); (hE, 4096); (h2, 4096); (h3, 4096); (h5, 100)]; OHead (SErr ENotFound) (-1); OStats 12288 0 3 4096]
   ++ [OSt SOk; OStats 12288 0 3 0; OSt SOk; OStats 12288 0 3 2048].   (* the backlog counts the evicted file's own 2048 bytes *)
